@@ -125,6 +125,11 @@ def run(prog, rep):
                             'independent parser splits or alters the field' % (ch, sep), func=f.id)
 
     check_unescape(prog, rep)
+    rep.rule('R9.7', 'field scanner of both readers (ParseNextLine), one generic iteration per abstract state (character class x quotes seen x last CR '
+                     'x end of stream): quotes are counted, separator / LF end the field only outside quotes, only a CR directly before the LF is dropped '
+                     'with it, the emitted cell is (field start, end - start) - RFC 4180 section 2', floor=2)
+    from rules import csvscan
+    csvscan.check(prog, rep, 'R9.7')
     check_lookahead_fresh(prog, rep)
 
     # ---------------------------------------------------------------- R9.3
@@ -247,15 +252,25 @@ class UnescapeModel(Model):
         self.base_facts = facts
 
     def cons(self, it):
-        out = list(self.base_facts)
+        out = list(self.base_facts) + list(getattr(it, 'extra_facts', ()))
+        neq = []
         for lab, d in it.path.guards:
             if isinstance(lab, tuple) and lab[0] == 'LIN':
                 op, a, b = lab[1], lab[2], lab[3]
                 if not d:
                     op = {'<': '>=', '<=': '>', '>': '<=', '>=': '<', '==': '!=', '!=': '=='}[op]
-                r = {'<': lambda: [lt(a, b)], '<=': lambda: [le(a, b)], '>': lambda: [lt(b, a)], '>=': lambda: [le(b, a)], '==': lambda: eq(a, b), '!=': lambda: None}[op]()
+                if op == '!=':
+                    neq.append((a, b))
+                    continue
+                r = {'<': lambda: [lt(a, b)], '<=': lambda: [le(a, b)], '>': lambda: [lt(b, a)], '>=': lambda: [le(b, a)], '==': lambda: eq(a, b)}[op]()
                 if r:
                     out.extend(r)
+        # a != b together with a known order is a strict order
+        for a, b in neq:
+            if entails(out, [le(a, b)]):
+                out.append(lt(a, b))
+            elif entails(out, [le(b, a)]):
+                out.append(lt(b, a))
         return out
 
     def char_at(self, it, p):
@@ -359,6 +374,11 @@ class UnescapeModel(Model):
 
 
 class UnescapeInterp(Interp):
+    """E3 + linear facts. Loops: the first iteration is interpreted from the entry state (base class); every later iteration is covered by
+    an inductive argument - see loop_induction()."""
+    loops = None            # [(loop node, env at entry, facts at entry)] recorded by the main run
+    generic = None          # (loop node, candidates) while a generic iteration is interpreted
+
     def cast_other(self, v, t):
         return v
 
@@ -367,10 +387,141 @@ class UnescapeInterp(Interp):
             return v
         return Interp.coerce(self, v, t)
 
+    def exec_loop(self, fr, n, depth):
+        if self.generic is not None or self.loops is None or n['k'] not in ('ForStmt', 'WhileStmt') or depth > 0:
+            return Interp.exec_loop(self, fr, n, depth)
+        if n['k'] == 'ForStmt':
+            self.exec(fr, child(n, 'init'), depth)
+        self.loops.append((n, dict(fr.env), list(self.model.cons(self))))
+        n2 = dict(n)
+        if n.get('r') and 'init' in n['r']:
+            keep = [i for i, r in enumerate(n['r']) if r != 'init']
+            n2['r'] = [n['r'][i] for i in keep]
+            n2['c'] = [n['c'][i] for i in keep]
+        return Interp.exec_loop(self, fr, n2, depth)
+
+    def exec(self, fr, n, depth):
+        if n is not None and n['k'] == 'GENERIC_ITERATION':
+            return self.generic_iteration(fr, n['loop'], depth)
+        return Interp.exec(self, fr, n, depth)
+
+    def generic_iteration(self, fr, loop, depth):
+        from bsv.dtab import _LoopExit
+        cond = child(loop, 'cond')
+        if cond is not None and not self.truth(fr, cond, depth):
+            self.act('GENERIC', 'not entered')
+            return
+        try:
+            Interp.exec(self, fr, child(loop, 'body'), depth)
+        except _LoopExit as e:
+            if e.kind == 'BreakStmt':
+                self.act('GENERIC', 'break')
+                return
+        inc = child(loop, 'inc') if loop['k'] == 'ForStmt' else None
+        if inc is not None:
+            self.ev(fr, inc, depth)
+        # which candidates hold again after the iteration?
+        c = self.model.cons(self)
+        for name, mk in self.generic[1]:
+            cs = mk(fr.env)
+            if cs is None or not all(entails(c, [x]) for x in cs):
+                self.broken.add(name)
+        self.act('GENERIC', 'iterated')
+
+
+def loop_assigned(f, loop):
+    out = set()
+    for x in f.walk(loop):
+        t = None
+        if x['k'] in ('BinaryOperator', 'CompoundAssignOperator') and x.get('op', '').endswith('=') and x.get('op') not in ('==', '!=', '<=', '>='):
+            t = strip(x['c'][0])
+        elif x['k'] == 'UnaryOperator' and x.get('op') in ('++', '--'):
+            t = strip(x['c'][0])
+        if t is not None and t['k'] == 'DeclRefExpr':
+            out.add(t['d'])
+    body = child(loop, 'body')
+    for x in f.walk(body):
+        for dcl in x.get('decls', []) or []:
+            out.discard(dcl['d'])
+    return out
+
+
+def loop_induction(prog, f, model_facts, it_main, needs):
+    """Houdini over difference templates for every top-level loop the main run recorded: candidate facts (v >= entry(v), v <= bound of the
+    loop condition, v - w = / <= / >= entry difference) are assumed for a generic iteration with fresh symbols for the loop-assigned
+    variables; candidates that do not hold again at the end of the iteration (on some path) are dropped until the rest is inductive.
+    The memory-safety obligations of the body are then decided under the inductive facts and appended to needs."""
+    seen = set()
+    for loop, env0, facts0 in it_main.loops:
+        if id(loop) in seen:
+            continue
+        seen.add(id(loop))
+        assigned = [d for d in sorted(loop_assigned(f, loop)) if isinstance(env0.get(d), (_Lin, int))]
+        if not assigned:
+            continue
+        entry = dict((d, _Lin.of(env0[d])) for d in assigned)
+        sym = dict((d, _Lin.sym('V%d' % i)) for i, d in enumerate(assigned))
+        cands = []
+
+        def add(name, mk):
+            cands.append((name, mk))
+        for d in assigned:
+            add('lo:%s' % d, (lambda d: lambda env: None if _Lin.of(env.get(d)) is None else [le(entry[d], _Lin.of(env[d]))])(d))
+            add('hi:%s' % d, (lambda d: lambda env: None if _Lin.of(env.get(d)) is None else [le(_Lin.of(env[d]), entry[d])])(d))
+        cond = strip(child(loop, 'cond')) if child(loop, 'cond') is not None else None
+        if cond is not None and cond['k'] == 'BinaryOperator' and cond.get('op') in ('!=', '<', '<='):
+            l, r = strip(cond['c'][0]), strip(cond['c'][1])
+            if l is not None and l['k'] == 'DeclRefExpr' and l.get('d') in assigned and r is not None and r['k'] == 'DeclRefExpr' and r.get('d') not in assigned:
+                bound = _Lin.of(env0.get(r['d']))
+                if bound is not None:
+                    add('bound:%s' % l['d'], (lambda d, b: lambda env: None if _Lin.of(env.get(d)) is None else [le(_Lin.of(env[d]), b)])(l['d'], bound))
+        for a in assigned:
+            for b in assigned:
+                if a < b:
+                    diff = entry[a] - entry[b]
+                    add('le:%s-%s' % (a, b), (lambda a, b, diff: lambda env: None if _Lin.of(env.get(a)) is None or _Lin.of(env.get(b)) is None
+                                              else [le(_Lin.of(env[a]) - _Lin.of(env[b]), diff)])(a, b, diff))
+                    add('ge:%s-%s' % (a, b), (lambda a, b, diff: lambda env: None if _Lin.of(env.get(a)) is None or _Lin.of(env.get(b)) is None
+                                              else [le(diff, _Lin.of(env[a]) - _Lin.of(env[b]))])(a, b, diff))
+        # candidates must hold on entry
+        env_entry = dict(env0)
+        cands = [(nm, mk) for nm, mk in cands if mk(env_entry) is not None and all(entails(facts0, [x]) for x in mk(env_entry))]
+        gen_env = dict(env0)
+        for d in assigned:
+            gen_env[d] = sym[d]
+        node = {'k': 'GENERIC_ITERATION', 'loop': loop, 'i': -1}
+
+        def run_generic(active, collect):
+            model = UnescapeModel(model_facts)
+            it = UnescapeInterp(prog, model, max_depth=2, max_paths=300)
+            it.generic = (loop, active)
+            it.broken = set()
+            assumed = []
+            for nm, mk in active:
+                assumed.extend(mk(gen_env))
+
+            def init(it_, fr):
+                fr.env.update(gen_env)
+                it_.extra_facts = list(facts0) + assumed
+            paths = it.run(f, init, body=node)
+            if collect is not None:
+                for p in paths:
+                    collect.extend(a for a in p.actions if a[0] == 'NEED')
+            return it.broken
+        active = list(cands)
+        for _ in range(len(cands) + 1):
+            broken = run_generic(active, None)
+            if not broken:
+                break
+            active = [(nm, mk) for nm, mk in active if nm not in broken]
+        run_generic(active, needs)
+
 
 def unescape_outcomes(prog, f, facts, needs=None):
     model = UnescapeModel(facts)
     it = UnescapeInterp(prog, model, max_depth=2, max_paths=300)
+    if needs is not None:
+        it.loops = []
 
     def init(it_, fr):
         ptrs = [p for p in f.params if 't' in p and f.type(p).rstrip().endswith('*')]
@@ -391,6 +542,8 @@ def unescape_outcomes(prog, f, facts, needs=None):
         g = dict((l, d) for l, d in p.guards if l in ('FIRSTQ', 'LASTQ'))
         key = (g.get('FIRSTQ'), g.get('LASTQ'))
         res.setdefault(key, set()).add('throw' if p.outcome[0] == 'THROW' else 'accept')
+    if needs is not None and it.loops:
+        loop_induction(prog, f, facts, it, needs)
     return res
 
 
